@@ -420,7 +420,18 @@ def noRunAfterKill (ev : List Ev) : Bool :=
       | .runEnd _ _ => if st.2.1 && !st.1 then (st.1, st.2.1, false) else st
       | _ => st) (false, false, true)).2.2
 
-def okAtomic (t : Trace) : Bool := ok t && noRunAfterKill t.ev && killBoundAtomic t.ev
+/-- same setting: once kill() has returned on an actor that had not begun to stop, the on_stop that follows is
+    on_stop(killed=true) - a stop marker that is merely queued does not turn the kill into a graceful stop -/
+def killWins (ev : List Ev) : Bool :=
+  (ev.foldl (fun (st : Bool × Bool × Bool) e =>
+      -- (stopped, armed, ok)
+      match e with
+      | .issued _ .kill _ _ => if st.1 then st else (st.1, true, st.2.2)
+      | .stopStart k => if st.2.1 && !st.1 && !k then (true, st.2.1, false) else (true, st.2.1, st.2.2)
+      | .joined _ => (true, st.2.1, st.2.2)
+      | _ => st) (false, false, true)).2.2
+
+def okAtomic (t : Trace) : Bool := ok t && noRunAfterKill t.ev && killBoundAtomic t.ev && killWins t.ev
 def okSettled (t : Trace) : Bool := okAtomic t && killEnds t.ev
 end C06
 
